@@ -470,3 +470,30 @@ def deps(inst, exprs, follow=lambda d: True, _seen=None, depth=0):
     for e in exprs:
         walk(e, depth)
     return out
+
+
+def partial_fields(inst, local, at):
+    """fields of a local assigned one by one (C structs): {field name: [exprs]} for partial defs reaching `at`"""
+    fl = flow(inst)
+    out = {}
+    for s in fl.reaching(local, at):
+        if s[0] == "entry":
+            continue
+        lhs = fl._site_lhs(s)
+        if lhs is None or not lhs["p"] or lhs["p"][0]["k"] != "field":
+            continue
+        name = ".".join(p["n"] for p in lhs["p"] if p["k"] == "field")
+        out.setdefault(name, [])
+        out[name] += fl._site_value(s, 0, frozenset())
+    return out
+
+
+def pointee_local(inst, exprs):
+    """if the expression is `&local` / `&raw local` (possibly through casts) return that local"""
+    for e in exprs:
+        e = deep_strip(e)
+        while e[0] in ("ref", "cast"):
+            e = deep_strip(e[1])
+        if e[0] == "partial":
+            return e[1]
+    return None
